@@ -33,7 +33,7 @@ def shards(tier, seed):
     if tier == "quick":
         n_sh, ncal, nsc, budget = 8, 400, 40, 45
     else:
-        n_sh, ncal, nsc, budget = 14, 1500, 150, 400
+        n_sh, ncal, nsc, budget = 14, 8000, 600, 400
     return [{"name": f"cal{i}", "threads": 2, "timeout": budget * 4 + 300,
              "params": {"seed": seed, "shard": i, "ncal": ncal, "nsc": nsc, "tier": tier,
                         "budget_s": budget}} for i in range(n_sh)]
